@@ -2,6 +2,7 @@ import Dcg.Model.Graphql
 import Dcg.Proofs.Graphql
 import Dcg.Gen.GraphqlTables
 import Dcg.Proofs.GraphqlBridge
+import Dcg.Proofs.GraphqlBridgeOp
 /-
 C17 — the shape of a GraphQL schema is mirrored by the generated models.
 Only property theorems live here; helper lemmas are in Dcg/Proofs/Graphql.lean.
@@ -226,6 +227,46 @@ theorem rendered_hint_full_false : ¬ RenderedHintMirrorsType := by
   have := congrArg Dcg.Sem.Typing.Ty.show hd'
   rw [type_named_any_loses_nullability.2.1, type_named_any_loses_nullability.2.2] at this
   exact absurd this (by decide)
+
+/-- THE `|` SPELLING (`use_union_operator`), proved as well, same hypothesis: the annotation is the
+printed form of the PEP 604 expression `X | None` per nullable level, and that expression denotes the
+declared GraphQL type. What makes it true here although C13 refutes spelling invariance in general
+(`spelling_changes_meaning`): `_remove_none_from_union` splits the text at EVERY `|`, also inside
+brackets, and drops the parts equal to `None`; on the text of a GraphQL chain every part either carries
+a bracket (`List[Int`, `None]`) or is the type name, so nothing is dropped and `get_optional_type`
+only appends ` | None` (Proofs/GraphqlBridgeOp.lean, a string-level proof about `re.split`).
+The expression is exhibited, not claimed unique: the printer is not injective on `|` expressions. -/
+theorem rendered_hint_mirrors_type_operator (o : Opts) (ho : o.unionOp = true) (isEnum : List Char → Bool)
+    (fo : Bool) (t : GType) (hwf : t.wf = true) (hn : okName t.baseName = true) :
+    ∃ e : TExpr, annotation o isEnum fo t = print e ∧ denote e = gqlDenote (declared fo t) := by
+  have hn' : okName (unroll (declared fo t) true).typeName = true := by
+    rw [unroll_typeName, baseName_declared]; exact hn
+  refine ⟨Dcg.Proofs.GraphqlBridgeOp.chainB o (unroll (declared fo t) true), ?_, ?_⟩
+  · rw [Dcg.Proofs.GraphqlBridgeOp.print_chainB]
+    exact Dcg.Proofs.GraphqlBridgeOp.annotationB_eq o ho isEnum fo t hwf hn
+  · rw [(Dcg.Proofs.GraphqlBridgeOp.denote_chainB o _ hn').2.2, denChain_unroll]
+    rfl
+
+/-- non-vacuity, `|` spelling: `[[Color!]]!` and `[Int]` -/
+example :
+    annotation { unionOp := true } (fun _ => true) false
+      (.nonNull (.list (.list (.nonNull (.named "Color".toList))))) = "List[List[Color] | None]".toList ∧
+    annotation { unionOp := true, stdColl := true } (fun _ => false) false (.list (.named "Int".toList))
+      = "list[Int | None] | None".toList ∧
+    (gqlDenote (.list (.named "Int".toList))).show = "{list({Int;None});None}".toList := by
+  decide +kernel
+
+/-- Every spelling the GraphQL parser can be asked for — `List` / `list`, `Optional[…]` / `| None` —
+gives an annotation with the same meaning: that of the declared type. -/
+theorem rendered_hint_all_spellings (unionOp stdColl : Bool) (isEnum : List Char → Bool) (fo : Bool)
+    (t : GType) (hwf : t.wf = true) (hn : okName t.baseName = true) :
+    ∃ e : TExpr, annotation (gqlOpts unionOp stdColl) isEnum fo t = print e ∧
+      denote e = gqlDenote (declared fo t) := by
+  cases unionOp with
+  | true => exact rendered_hint_mirrors_type_operator _ rfl isEnum fo t hwf hn
+  | false =>
+    obtain ⟨e, _, h1, _, h2⟩ := rendered_hint_mirrors_type (gqlOpts false stdColl) rfl isEnum fo t hwf hn
+    exact ⟨e, h1, h2⟩
 
 /-- the witness lies outside `okName`, as it must -/
 example : okName "Any".toList = false ∧ okName "Date".toList = true := by decide
